@@ -425,7 +425,9 @@ def run(repo, rep, tier):
     if not pargs:
         raise AnalysisError('send_init_gex: the modulus argument of set_params is not a plain local')
     pname = sorted(pargs)[0]
-    pdefs = [n for n in walk_no_nested(sgx) if isinstance(n, ast.Assign) and any(isinstance(t, ast.Name) and t.id == pname for t in n.targets)]
+    pdefs = [n for n in walk_no_nested(sgx) if isinstance(n, (ast.Assign, ast.AnnAssign)) and any(isinstance(x, ast.Name) and x.id == pname and isinstance(x.ctx, ast.Store) for t in (n.targets if isinstance(n, ast.Assign) else [n.target]) for x in ast.walk(t))]
+    if not pdefs:
+        raise AnalysisError('send_init_gex: no statement defines the modulus %s that set_params installs' % pname)
     size_names = {pname} | {x.id for d_ in pdefs for x in ast.walk(d_.value) if isinstance(x, ast.Name) and x.id.endswith('_len')}
 
     def bounds_modulus(node):
@@ -443,7 +445,9 @@ def run(repo, rep, tier):
         for nd_ in cg9.nodes_of(d_):
             starts9 |= set(nd_.succ)
     pth9 = cg9.find_path(list(starts9), installs, avoid=gates9) if starts9 else None
-    rep.check('cost', 'the size of a peer-supplied group-exchange modulus is bounded before it is used for the exponentiation', pth9 is None and bool(starts9), sgx,
+    if not starts9:
+        raise AnalysisError('send_init_gex: the definition of the modulus has no successor in the control-flow graph')
+    rep.check('cost', 'the size of a peer-supplied group-exchange modulus is bounded before it is used for the exponentiation', pth9 is None, sgx,
               'send_init_gex installs the modulus the peer handed out without an upper bound on its size; send_init then computes pow(g, x, p) with an exponent as long as p: the time of one probe grows with the cube of a size the peer chooses (a 32768-bit "group" costs ~16 s, 65536 bits minutes) and is not limited by the timeout (-t)',
               func='kexdh:KexGroupExchange.send_init_gex', stmt='peer-chosen modulus size is not bounded before the exponentiation')
     # ---- fool clause: probe isolation ------------------------------------------------------------------------------------
